@@ -256,9 +256,10 @@ def awkward_variants(op, cases, tier, salt):
     def rows_of(ls):
         return [l.f64()[0] for l in ls]
 
-    def mkarr(ls, struct, route, extra, spelling=0, reverse_fields=False):
+    def mkarr(ls, struct, route, extra, spelling=0, reverse_fields=False, input_kind=None):
         return awk.build(ls[0].system, rows_of(ls), ls[0].momentum, struct, route=route, spelling=spelling,
-                         extra=(extra if extra == "nested" else (extra and route != "with_name")), reverse_fields=reverse_fields)
+                         extra=(extra if extra == "nested" else (extra and route != "with_name")), reverse_fields=reverse_fields,
+                         input_kind=input_kind)
 
     def mk(sname, route, other="same", selfmode="array", extra=True, spelling=0):
         struct = S[sname]
@@ -408,6 +409,21 @@ def awkward_variants(op, cases, tier, salt):
             return v, a
         yield {"name": f"awkward:{sname}:{route}:physical={kd}", "backend": "awkward", "pairing": "paired", "build": build_twin,
                "struct": st, "route": route, "extra": route != "with_name"}
+    # the constructors' *inputs* in other physical layouts (every column its own kind / records behind an IndexedArray ...)
+    for i_, (route, kd) in enumerate((("zip", "listarray-gaps"), ("Array", "indexed-records"), ("with_name", "sliced-offsets"),
+                                      ("Array", "bytemasked-allvalid"), ("zip", "indexed-lists"))):
+        if tier != "thorough" and i_ != (k + salt_mix(op.name)) % 5:
+            continue
+        sname = ("jagged", "nested3", "option_list")[(k + i_) % 3]
+
+        def build_in(route=route, kd=kd, sname=sname):
+            v = mkarr(selfs, S[sname], route, True, input_kind=kd)
+            a = list(plain)
+            for j in vecpos:
+                a[j] = mkarr([c[1][j] for c in cases], S[sname], route, False, input_kind=kd)
+            return v, a
+        yield {"name": f"awkward:{sname}:{route}:constructor-input={kd}", "backend": "awkward", "pairing": "paired", "build": build_in,
+               "struct": S[sname], "route": route, "extra": route != "with_name"}
     # integer-typed and float32 leaves on the receiving array (the object reference gets the same integers / rounded values)
     import awkward as _ak
 
